@@ -62,7 +62,7 @@ package http2
 //@ func parseDataFrame :: fc, fh, countError, payload -> f, err
 //@   props C19,C10
 //@   callback countError
-//@   assigns frameCache.dataFrame.all, DataFrame.data, DataFrame.FrameHeader.all
+//@   assigns DataFrame.data, FrameHeader.valid, FrameHeader.Type, FrameHeader.Flags, FrameHeader.Length, FrameHeader.StreamID
 //@   ensures [C19:data-stream0] fh.StreamID == 0 ==> isConnErrDetail(err, 1)
 //@   ensures [C19:data-pad-byte-missing] fh.StreamID != 0 && flag(fh.Flags, 8) && len(payload) == 0 ==> err == io.ErrUnexpectedEOF
 //@   ensures [C19:data-pad-too-big] fh.StreamID != 0 && flag(fh.Flags, 8) && len(payload) > 0 && payload[0] > len(payload) - 1 ==> isConnErrDetail(err, 1)
